@@ -23,11 +23,12 @@ META = dict(
               "nondeterministic end of file at every line boundary and with one numeric field replaced by a malformed "
               "text (non-numeric, empty, absurdly large count); a cut inside a line (prefix of 1 character, 25 / 50 / 60 / 70 / 80 / 90 % and all but "
               "the last character; 3 positions for fixtures longer than 30 lines) and one deleted / duplicated / swapped line, both at 10 line positions spread over the "
-              "file; explicit and name-derived format selection; when a LoadError gives a line number it equals an "
+              "file; content that is not text (every byte >= 0x80; one "
+              "undecodable byte at four offsets) as a real file; explicit and name-derived format selection; when a LoadError gives a line number it equals an "
               "independent count of the lines handed out minus the lines pushed back",
         thorough="the first 400 lines of every fixture (quick: 60): a cut at each of these line boundaries, in-line cuts and line "
                  "mutations at every line instead of 10 sampled ones"),
-    outside=["binary garbage, character substitutions outside numeric fields, mutations of several lines at once; a number cut "
+    outside=["character substitutions outside numeric fields other than one undecodable byte, mutations of several lines at once; a number cut "
              "in the middle is modelled as an unconstrained other number (over-approximation; confirmed by replay)",
              "unbounded termination (a step budget bounds every path)", "the full 11 MB corpus at every cut point"],
     assumptions=["in-memory files; numbers of fixtures as tokens; consistency checks inside readers may reject symbolic "
@@ -294,9 +295,27 @@ def _h_parser_body(ctx, api, mods, fmt, fn, many, fault, lines, text, explicit, 
                         t2 = text[:m.start()] + rep + text[m.end():]
                         break
         base = os.path.basename(fn)
-        path = ctx.tmp_path(base)
-        ctx.write_text(path, t2)
-        ctx.scratch["memfs_fallthrough"] = False
+        binary_dir = None
+        if fault == "binary":
+            # bytes that are not text: a real file (the in-memory files hold text), all of it or one byte inside line k
+            import tempfile
+            raw = text.encode("utf-8", "replace")
+            how = ctx.choice(["all-binary", "one-byte"], label="binary-kind")
+            if how == "all-binary":
+                raw = bytes(range(128, 256)) * 40
+            else:
+                offs = [i for i, ch in enumerate(raw) if ch not in (10, 13)]
+                k = ctx.choice(sorted({offs[0], offs[len(offs) // 7], offs[len(offs) // 2], offs[-1]}), label="offset")
+                raw = raw[:k] + b"\xe4" + raw[k + 1:]
+            binary_dir = tempfile.mkdtemp(prefix="symx-c07-")
+            path = os.path.join(binary_dir, base)
+            with open(path, "wb") as fh:
+                fh.write(raw)
+            ctx.scratch["memfs_fallthrough"] = True
+        else:
+            path = ctx.tmp_path(base)
+            ctx.write_text(path, t2)
+            ctx.scratch["memfs_fallthrough"] = False
         out, err, objs = None, None, []
         with warnings.catch_warnings(record=True):
             warnings.simplefilter("always")
@@ -316,7 +335,16 @@ def _h_parser_body(ctx, api, mods, fmt, fn, many, fault, lines, text, explicit, 
                 raise
             except BaseException as e:
                 out, err = type(e).__name__, e
+    if binary_dir is not None:
+        import shutil
+        still_open = [os.readlink(f"/proc/self/fd/{n}") for n in os.listdir("/proc/self/fd")
+                      if os.path.exists(f"/proc/self/fd/{n}") and os.path.islink(f"/proc/self/fd/{n}")]
+        leaked = path in still_open
+        shutil.rmtree(binary_dir, ignore_errors=True)
+        ctx.scratch["memfs_fallthrough"] = False
     cls = f"{fmt},{fault},{'many' if many else 'one'}"
+    if binary_dir is not None:
+        ctx.oblige("file-closed-afterwards", not leaked, cls=cls)
     if out == "FileFormatError" and not explicit:
         # the fixture name is not covered by a pattern of this format: selection error is the documented outcome
         return
@@ -349,6 +377,9 @@ def jobs(tier):
                        budget_s=300 if tier == "quick" else 3000, max_validate=3, max_paths=3000))
         out.append(job("C07", f"corrupt[{fmt},{fn}]", M, "h_parser", dict(fmt=fmt, fn=fn, many=many, fault="corrupt", max_lines=max(ml, 400)),
                        budget_s=300, max_validate=3, max_paths=200))
+        if fmt not in ("json_qcschema",):
+            out.append(job("C07", f"binary[{fmt},{fn}]", M, "h_parser", dict(fmt=fmt, fn=fn, many=many, fault="binary", max_lines=ml),
+                           budget_s=300, max_validate=3, max_paths=40))
         for fault in ("truncate-inline", "lines"):
             out.append(job("C07", f"{fault}[{fmt},{fn}]", M, "h_parser", dict(fmt=fmt, fn=fn, many=many, fault=fault, max_lines=ml),
                            budget_s=300 if tier == "quick" else 3000, max_validate=3, max_paths=1500))
